@@ -6,7 +6,14 @@ from lib import core
 
 
 class _Ctx:
-    tier = "quick"; seed = 1; notes = []
+    """stand-in for core.Ctx outside a check run: attributes a regen() may look at default to None"""
+    tier = "quick"; seed = 1; notes = []; replay = None
+
+    def __getattr__(self, name):
+        return None
+
+    def note(self, *a, **k):
+        pass
 
 
 def main():
